@@ -1,7 +1,7 @@
 (* C09 Exec: checkers evaluated by vm_compute on every correspondence case.
    WCase: a rolling-window history and what lib/collection did; SCase: a shedder trace and what
    lib/load did (PrimFloat replays the IEEE-754 double operations of the Go code). *)
-From God Require Import Base.Prelude C09.RW C09.Spec C09.Model.
+From God Require Import Base.Prelude C09.RW C09.Spec C09.Model C09.Integ.
 From Coq Require Import Floats.
 From GodGen Require C09_Gen.
 Local Open Scope Z_scope.
@@ -54,7 +54,10 @@ Inductive case :=
         (panic_at : Z)                          (* -1 none, 0 constructor, k: k-th op (1-based) *)
         (reduces : list (list bucket))          (* buckets handed to fn by every Reduce, in order *)
         (final : option (Z * Z * list bucket))  (* offset, lastTime - t0, ring *)
-| SCase (window nbuckets thr : Z) (ops : list xsop) (panicked : bool) (rows : list srow).
+| SCase (window nbuckets thr : Z) (ops : list xsop) (panicked : bool) (rows : list srow)
+| ICase (http : bool) (guard : bool)              (* integration: RPC interceptor / HTTP handler (+RecoverHandler inside) *)
+        (calls : list (bool * nat * Z))           (* scripted drop?, outcome / response shape, its argument *)
+        (rows : list (list Z)).                   (* driver rows, see the two verif_c09_driver_test.go *)
 
 (* short names used by the case encoder *)
 Definition WAdd := Add.
@@ -208,15 +211,78 @@ Definition s_spec_ok (window nb cpu : Z) (ops : list xsop) (panicked : bool) (ro
   then negb panicked && s_spec nb (window / nb) cpu (mksp t0 0 (f_of_Z 0) [] [] [] []) ops rows
   else true.
 
+(* ---------- integrations: sheddinghandler.go / sheddinginterceptor.go over a recording shedder ---------- *)
+Definition rpc_of (k : nat) (arg : Z) : rpc_out :=
+  match k with
+  | 0%nat => ROk | 1%nat => RStatus arg | 2%nat => RDeadline | 3%nat => RWrapsDeadline | _ => RPanic
+  end.
+Definition shape_of (k : nat) (arg : Z) : shape :=
+  match k with
+  | 0%nat => SHeader arg | 1%nat => SWrite | 2%nat => SNothing | 3%nat => SStream arg
+  | 4%nat | 5%nat => SPanic | _ => SWritePanic
+  end.
+
+(* what comes back to the caller of the RPC chain (crash guard outside): see the driver's legend *)
+Definition rpc_back (o : rpc_out) : Z :=
+  match o with
+  | ROk => -1 | RStatus c => if c =? 0 then -1 else c | RDeadline => 100 | RWrapsDeadline => 101
+  | RPanic => 13                      (* codes.Internal, crashinterceptor.go:32 *)
+  end.
+(* status the HTTP client gets, and whether a panic escapes the chain *)
+Definition http_status (guard : bool) (s : shape) : Z :=
+  match s with
+  | SHeader c | SStream c => c
+  | SWrite | SNothing | SWritePanic => 200
+  | SPanic => if guard then 500 else 200
+  end.
+Definition http_escapes (guard : bool) (s : shape) : Z :=
+  match s with SPanic | SWritePanic => if guard then 0 else 1 | _ => 0 end.
+
+Definition i_row (http guard : bool) (c : cnt) (drop : bool) (k : nat) (arg : Z) : list Z :=
+  let base := [if drop then 0 else 1; c_pass c; c_fail c; c_drop c; 0; 0] in
+  if http then base ++ (if drop then [503; 0] else [http_status guard (shape_of k arg); http_escapes guard (shape_of k arg)])
+  else base ++ [if drop then 200 else rpc_back (rpc_of k arg)].
+
+Fixpoint i_run (http guard : bool) (c : cnt) (calls : list (bool * nat * Z)) (rows : list (list Z)) : bool :=
+  match calls, rows with
+  | [], [] => true
+  | (drop, k, arg) :: cs, row :: rs =>
+      let r := if http then report_http guard (shape_of k arg) else report_rpc (rpc_of k arg) in
+      let c' := cnt_call c drop r in
+      list_eqb Z.eqb (i_row http guard c' drop k arg) row && i_run http guard c' cs rs
+  | _, _ => false
+  end.
+
+(* the property on the observations: after every call nothing is in flight, nobody reported twice,
+   passes + fails = requests let in, a dropped request is not let in, no panic is swallowed or leaks
+   in the RPC chain, and a Fail is reported exactly for what the code documents
+   (RPC: context.DeadlineExceeded returned; HTTP: status 503 written) *)
+Fixpoint i_spec (http guard : bool) (n_in n_fail n_drop : Z) (calls : list (bool * nat * Z)) (rows : list (list Z)) : bool :=
+  match calls, rows with
+  | [], [] => true
+  | (drop, k, arg) :: cs, (li :: ps :: fl :: dr :: infl :: dup :: back :: rest) :: rs =>
+      let n_in' := if drop then n_in else n_in + 1 in
+      let n_drop' := if drop then n_drop + 1 else n_drop in
+      let is_fail := negb drop && (if http then (match k with 0%nat | 3%nat => arg =? 503 | _ => false end)
+                                   else Nat.eqb k 2) in
+      let n_fail' := if is_fail then n_fail + 1 else n_fail in
+      (li =? (if drop then 0 else 1)) && (infl =? 0) && (dup =? 0) && (ps + fl =? n_in') && (dr =? n_drop') &&
+      (fl =? n_fail') && (if http then true else negb (back =? 300)) &&
+      i_spec http guard n_in' n_fail' n_drop' cs rs
+  | _, _ => false
+  end.
+
 (* ---------- entry points ---------- *)
 Definition model_ok (c : case) : bool :=
   match c with
   | WCase n iv ign ops p rs fin => w_model_ok n iv ign ops p rs fin
   | SCase w nb cpu ops p rows => s_model_ok w nb cpu ops p rows
+  | ICase http guard calls rows => i_run http guard (mkcnt 0 0 0 0) calls rows
   end.
 
 Definition spec_ok (c : case) : bool :=
   match c with
   | WCase n iv ign ops p rs fin => w_spec_ok n iv ign ops rs
   | SCase w nb cpu ops p rows => s_spec_ok w nb cpu ops p rows
+  | ICase http guard calls rows => i_spec http guard 0 0 0 calls rows
   end.
